@@ -77,6 +77,7 @@ class _GRAttr(PathAnalysis):
     def __init__(self, prog):
         super().__init__(prog)
         self.bad = []
+        self.bad_gr = []
         self.changes = set()
         self.flagptrs = set()
 
@@ -88,15 +89,21 @@ class _GRAttr(PathAnalysis):
                 r = strip(n[3])
                 if kind(r) == "addr" and (mem_field(r[1]) or (0, 0))[1] in ("attr_modified", "gattr_modified"):
                     self.flagptrs.add(strip(n[2])[1])
-        return (None, False)
+        return (None, False, False, False)
 
     def on_stmt(self, func, bid, idx, stmt, env, user):
-        chg, flagged = user
+        chg, flagged, local, grmod = user
         for x in walk(stmt["e"], True):
             if x[0] == "asg" and x[1] == "=":
                 mf = mem_field(x[2])
                 r = strip(x[3])
                 nonzero = not (is_int(r) and int_val(r) == 0)
+                if kind(strip(x[2])) == "var" and kind(r) == "addr" and (mem_field(r[1]) or (0, 0))[1] == "attr_modified":
+                    local = True  # the owner of the attribute is an image, not the file
+                if mf and mf[1] == "attr_modified" and nonzero:
+                    local = True
+                if mf and mf[1] == "gr_modified" and nonzero:
+                    grmod = True
                 if mf and mf[1] == "data_modified" and mf[0] in ("at_info", "at_info_t") and nonzero:
                     self.changes.add(x[4])
                     if chg is None:
@@ -111,12 +118,14 @@ class _GRAttr(PathAnalysis):
                     self.changes.add(x[5])
                     if chg is None:
                         chg = x[5]
-        return (chg, flagged)
+        return (chg, flagged, local, grmod)
 
     def on_exit(self, func, bid, retval, env, user):
-        chg, flagged = user
+        chg, flagged, local, grmod = user
         if chg is not None and not flagged and classify_ret(retval, self.fails) != "fail":
             self.bad.append(chg)
+        elif chg is not None and local and not grmod and classify_ret(retval, self.fails) != "fail":
+            self.bad_gr.append(chg)
 
 
 GRATTR_NOT_MUTATORS = {
@@ -149,8 +158,11 @@ def rule_grattr(ctx):
         if a.bad:
             ctx.violated("GRATTR", key, f.where(min(a.bad)), "an attribute is changed (line %d) on a non-failing path that never sets the owner's attr_modified / gattr_modified flag: "
                          "GRend would not write the new value" % min(a.bad))
+        elif a.bad_gr:
+            ctx.violated("GRATTR", key, f.where(min(a.bad_gr)), "an image's attribute is changed (line %d) on a non-failing path that never sets gr_modified: GRend skips its loop over the images "
+                         "unless that flag is set, so the new value is not written" % min(a.bad_gr))
         else:
-            ctx.holds("GRATTR", key, f.where(), "%d attribute change(s): the owner's change flag is set on every non-failing path" % len(a.changes), nontrivial=True)
+            ctx.holds("GRATTR", key, f.where(), "%d attribute change(s): the owner's change flag (and gr_modified for an image's attribute) is set on every non-failing path" % len(a.changes), nontrivial=True)
     ctx.floor("GRATTR", 3, n, "(attribute changes in the GR interface)")
     return n
 
